@@ -1154,15 +1154,27 @@ class Walker:
 
     def s_Assert(self, n, st):
         outs = []
+        can_matter = False
+        n_ev = len(st.events)
         for s, k, p in self.cond(n.test, st):
             if k == "true":
                 outs.append((s, "fall", None))
+                if any(ev[0] in ("write", "store", "mutcall", "del", "fs-mutation") for ev in s.events[n_ev:]):
+                    can_matter = True  # the test itself does something (assert f.write(b) == len(b))
             elif k == "false":
+                can_matter = True
                 s = s.copy()
                 s.ev("raise", self.site(n), "AssertionError", "assert")
                 outs.append((s, "raise", Exc("AssertionError", [self.site(n)], (), "assert", "assert " + ast.unparse(n.test)[:60])))
             else:
+                can_matter = True
                 outs.append((s, k, p))
+        if can_matter:
+            # python -O / PYTHONOPTIMIZE: the statement is not compiled at all - neither the test nor
+            # the failure happens
+            s = st.copy()
+            s.ev("assert-skipped", self.site(n), "python -O")
+            outs.append((s, "fall", None))
         return outs
 
     def s_Continue(self, n, st):
@@ -1367,7 +1379,41 @@ class Walker:
                     names.add(x.id)
         return names
 
+    # -- one-shot iterators: zip/map/filter/iter/reversed/enumerate objects, generator
+    # expressions and generators yield their items once; a second pass over the same object
+    # finds nothing.  After a consumer that runs an iterator held in a variable to its end, the
+    # variable holds an exhausted iterator (an empty sequence for every later consumer).
+    _ONE_SHOT = ("builtin:zip", "builtin:map", "builtin:filter", "builtin:iter", "builtin:reversed", "builtin:enumerate")
+    EXHAUSTED = ("lit", "tuple", (), ("exhausted-iterator", 0, 0))
+
+    def _one_shot(self, t):
+        if is_call(t, self._ONE_SHOT) or (is_call(t) and t[1].startswith("ext:itertools.")):
+            return True
+        if isinstance(t, tuple) and len(t) == 3 and t[0] == "gen":
+            return True
+        return isinstance(t, tuple) and len(t) == 5 and t[0] == "comp" and t[1] == "gen"
+
+    def _exhaust_names(self, names, st, outs, kinds=("fall", "val", "true", "false")):
+        held = {nm: st.env[nm] for nm in names if nm in st.env and self._one_shot(st.env[nm])}
+        if not held:
+            return outs
+        res = []
+        for s, k, p in outs:
+            if k in kinds and any(s.env.get(nm) == v for nm, v in held.items()):
+                s = s.copy()
+                for nm, v in held.items():
+                    if s.env.get(nm) == v:
+                        s.env[nm] = self.EXHAUSTED
+            res.append((s, k, p))
+        return res
+
     def s_For(self, n, st):
+        outs = self._s_For(n, st)
+        if isinstance(n.iter, ast.Name) and not any(isinstance(x, (ast.Break, ast.Return)) for b in n.body for x in ast.walk(b)):
+            outs = self._exhaust_names([n.iter.id], st, outs)
+        return outs
+
+    def _s_For(self, n, st):
         outs = []
         # literal list of constants: unrolled
         if isinstance(n.iter, (ast.List, ast.Tuple)) and all(isinstance(e, ast.Constant) for e in n.iter.elts) and isinstance(n.target, ast.Name):
@@ -1637,6 +1683,12 @@ class Walker:
         after = s.copy()
         for nm in self._assigned_names(body) | set(_names_of_target(target)):
             after.env[nm] = Fresh("afterloop_" + nm)
+        # `except E as name:` deletes `name` when the handler is left - also a binding made before
+        # the loop: after an iteration that went through the handler the name is unbound
+        hnames = {h.name for b in body for h in ast.walk(b) if isinstance(h, ast.ExceptHandler) and h.name}
+        for nm in hnames:
+            if nm in s.env and any(k2 in ("fall", "continue", "break") and nm not in s2.env for s2, k2, _p2 in body_outs):
+                after.env[nm] = ("maybeunbound", after.env.get(nm, Fresh("afterloop_" + nm)))
         if normal:
             keep = frozenset(f for f in normal if _mentions(f, el) or f[0] in ("forall",))
             if keep:
@@ -1932,6 +1984,13 @@ class Walker:
     def e_Name(self, e, st):
         if e.id in st.env and "$global:" + e.id not in st.env:
             t = st.env[e.id]
+            if isinstance(t, tuple) and len(t) == 2 and t[0] == "maybeunbound":
+                outs = []
+                self.rz(outs, st, e, "UnboundLocalError", "'%s' is deleted when an `except ... as %s` clause inside the loop is left" % (e.id, e.id), [])
+                s2 = st.copy()
+                s2.env[e.id] = t[1]
+                outs.append((s2, "val", t[1]))
+                return outs
             alias = st.env.get("$alias")
             if alias:
                 try:
@@ -2595,6 +2654,12 @@ class Walker:
         return outs
 
     def _comprehension(self, e, kind, st):
+        outs = self._comprehension_inner(e, kind, st)
+        if kind != "gen" and isinstance(e.generators[0].iter, ast.Name):
+            outs = self._exhaust_names([e.generators[0].iter.id], st, outs)
+        return outs
+
+    def _comprehension_inner(self, e, kind, st):
         if len(e.generators) > 1 and not any(g.is_async for g in e.generators) and kind in ("list", "set", "gen"):
             # [elt for a in A for b in B(a)]: walked as the nested comprehension
             # [[elt for b in B(a)] for a in A] (same evaluations, same exceptions); the flattened
@@ -2819,7 +2884,12 @@ class Walker:
             r = self._lazy_anyall(e, f.id, e.args[0], st)
             if r is not None:
                 return r
-        return call(self, e, st)
+        outs = call(self, e, st)
+        if isinstance(f, ast.Name) and f.id in ("list", "tuple", "dict", "set", "frozenset", "sorted", "sum", "max", "min") and e.args and isinstance(e.args[0], ast.Name) and self._is_module_level(f.id, st):
+            outs = self._exhaust_names([e.args[0].id], st, outs)
+        elif isinstance(f, ast.Attribute) and f.attr in ("join", "update", "extend") and len(e.args) == 1 and isinstance(e.args[0], ast.Name):
+            outs = self._exhaust_names([e.args[0].id], st, outs)
+        return outs
 
     def _lazy_anyall(self, e, name, ge, st):
         """all(E for x in IT if C) / any(...) over a literal table or a generator object: elements
